@@ -250,6 +250,105 @@ def rule_R17_visibility(text, log, label):
     return ''.join(out)
 
 
+def _if_extent(toks, i):
+    """toks[i] is `if`. Returns (body_open, body_close, else_kw or None, end_idx) where end_idx is
+    the index of the last token of the whole if/else expression."""
+    j = i + 1
+    while j < len(toks):
+        x = toks[j]
+        if x.kind == 'punct' and x.text in ('(', '['):
+            j = R.match_close(toks, j) + 1
+            continue
+        if x.kind == 'punct' and x.text == '{':
+            break
+        if x.kind == 'punct' and x.text in ('=>', ')', ']', '}', ';', ','):
+            return None   # `if` of a match-arm / matches! guard, not an if expression
+        j += 1
+    if j >= len(toks):
+        return None
+    bo = j
+    bc = R.match_close(toks, bo)
+    if bc + 1 < len(toks) and toks[bc + 1].kind == 'id' and toks[bc + 1].text == 'else':
+        e = bc + 1
+        if toks[e + 1].kind == 'id' and toks[e + 1].text == 'if':
+            _bo, _bc, _e, end = _if_extent(toks, e + 1)
+            return bo, bc, e, end
+        if toks[e + 1].kind == 'punct' and toks[e + 1].text == '{':
+            return bo, bc, e, R.match_close(toks, e + 1)
+        raise Undecided('unexpected token after else')
+    return bo, bc, None, bc
+
+
+def rule_R22_let_chains(text, log, label):
+    """`if A && let P = E && B { T } else { F }`  (let chains, unsupported by Verus) ->
+    nested `if A { match E { P => { if B { T } else { F } } _ => { F } } } else { F }`.
+    Each condition is still evaluated once, left to right, and exactly one of T / F runs."""
+    guard = 0
+    while True:
+        guard += 1
+        if guard > 200:
+            raise Undecided('%s: R22 does not converge' % label)
+        toks = R.lex(text)
+        target = None
+        for i in range(len(toks) - 1, -1, -1):
+            t = toks[i]
+            if t.kind == 'id' and t.text == 'if':
+                ext = _if_extent(toks, i)
+                if ext is None:
+                    continue
+                bo, bc, e, end = ext
+                # split condition at top-level &&
+                parts, cur, j = [], [], i + 1
+                while j < bo:
+                    x = toks[j]
+                    if x.kind == 'punct' and x.text in ('(', '['):
+                        c = R.match_close(toks, j)
+                        cur.extend(range(j, c + 1))
+                        j = c + 1
+                        continue
+                    if x.kind == 'punct' and x.text == '&&':
+                        parts.append(cur)
+                        cur = []
+                        j += 1
+                        continue
+                    cur.append(j)
+                    j += 1
+                parts.append(cur)
+                has_let = [bool(pp) and toks[pp[0]].kind == 'id' and toks[pp[0]].text == 'let' for pp in parts]
+                if any(has_let) and len(parts) > 1:
+                    target = (i, bo, bc, e, end, parts, has_let)
+                    break
+        if target is None:
+            return text
+        i, bo, bc, e, end, parts, has_let = target
+        body = text[toks[bo].start:toks[bc].end]
+        if e is not None:
+            else_txt = text[toks[e + 1].start:toks[end].end]
+            if not else_txt.lstrip().startswith('{'):
+                else_txt = '{ ' + else_txt + ' }'
+        else:
+            else_txt = '{}'
+
+        def part_text(pp):
+            return text[toks[pp[0]].start:toks[pp[-1]].end]
+
+        def build(k):
+            if k == len(parts):
+                return body
+            pt = part_text(parts[k])
+            if has_let[k]:
+                m = re.match(r'let\s+(.*?)\s*=\s*(?!=)(.*)$', pt, re.S)
+                if not m:
+                    raise Undecided('%s: R22 cannot split let part %r' % (label, pt))
+                pat, ex = m.group(1), m.group(2)
+                return '{ match %s { %s => %s, _ => %s } }' % (ex, pat, build(k + 1), else_txt)
+            return '{ if %s %s else %s }' % (pt, build(k + 1), else_txt)
+
+        new = build(0)
+        text = text[:toks[i].start] + new + text[toks[end].end:]
+        log.append(('R22', '%s: let chain with %d parts desugared' % (label, len(parts))))
+
+
 def rule_R5_closure_underscore(text, log):
     n = len(re.findall(r'\|\s*_\s*\|', text))
     if n:
@@ -785,6 +884,8 @@ def build_unit(unit, repo, variant=None):
             text = rule_for_to_while(text, lr[0], lr[1], ilog, item_id)
         text = rule_R5_closure_underscore(text, ilog)
         text = rule_R17_visibility(text, ilog, item_id)
+        if it.kind in ('fn', 'impl'):
+            text = rule_R22_let_chains(text, ilog, item_id)
         if it.kind == 'fn':
             text = rule_R16_mut_self(text, ilog, item_id)
         text = apply_regex_rewrites(text, getattr(unit, 'SUBST', []), ilog, item_id, 'R6')
